@@ -705,6 +705,48 @@ def v18(rep):
     rep.floor("node parameters that require an inner node (btree.c)", len(need), 4)
 
 
+def v19(rep):
+    """Iteration visits each entry once -- also when the table is *looked at* on the way.  An operation that neither changes the
+    number of entries or the bucket array nor allocates or frees a slot is a query; a query that relinks a chain (move the slot
+    found to the front) pulls the slot the iterator stands on, or the ones before it, across the iterator: entries are skipped
+    or visited again.  In table.c no query stores into a `next` link or a bucket head."""
+    f = common.extract("table.c", all_trees=True)
+    n = 0
+    for name, fn in sorted(f.funcs.items()):
+        if "body" not in fn or not fn.get("file", "").endswith("table.c"):
+            continue
+        links, mutator = [], False
+        for x in walk(fn["body"]):
+            l = None
+            if x["k"] == "BinaryOperator" and x["op"] == "=":
+                l = strip(x["c"][0])
+            elif x["k"] == "UnaryOperator" and x.get("op") in ("++", "--", "post++", "post--"):
+                l = strip(x["c"][0])
+                if l is not None and not (l["k"] == "MemberExpr" and l["n"] == "count"):
+                    l = None
+            if l is None:
+                continue
+            if l["k"] == "MemberExpr" and l["n"] in ("count", "buckv", "buckc"):
+                mutator = True
+            elif (l["k"] == "MemberExpr" and l["n"] == "next") or (l["k"] == "ArraySubscriptExpr" and "buckv" in render(l)):
+                links.append((x["l"], render(l)))
+        if any(c.get("callee") in ("stoAlloc", "stoFree", "stoResize", "tblEnlarge", "tblNew0", "tblNew") for c in calls(fn["body"])):
+            mutator = True
+        if mutator:
+            continue
+        n += 1
+        key = "lookup-writes-the-chain:%s" % name
+        if not links:
+            rep.ok("V19", key, nontrivial=False)
+        else:
+            rep.violation("V19", key, "table.c:%d (%s)" % (links[0][0], name),
+                          "%s changes neither the number of entries nor the bucket array and allocates nothing -- a query -- yet it "
+                          "stores into `%s`: the slot found is moved to the front of its chain, so an iteration in progress over "
+                          "that chain skips or repeats entries (keys 7,14,21,28 in one bucket, `tblElt(t, 7)` after the first "
+                          "step: the iteration ends after 3 visits)" % (name, "`, `".join(sorted({t for _, t in links}))))
+    rep.floor("query operations of table.c", n, 6)
+
+
 def v16(rep, rule="V16"):
     """Making room and using it are two steps in that order: a rotation or an insertion first slides the keys (entries,
     branches) of a node up by one and then writes the new key into the slot that became free.  Written the other way round the
@@ -1068,6 +1110,7 @@ def run(tier, only=None):
     v16(rep)
     v17(rep)
     v18(rep)
+    v19(rep)
     try:
         v5(rep)
     except AnalysisBroken as e:
